@@ -15,7 +15,7 @@
 From V.lib Require Import Base.
 From V.c13 Require Import C13Model.
 From V.c15 Require Import C15Model C15HevcModel.
-From V.c16 Require Import C16HevcParseModel C16ParseProofs C16HevcErProofs C16ParseSimProofs.
+From V.c16 Require Import C16HevcParseModel C16HevcPipeModel C16ParseProofs C16HevcErProofs C16ParseSimProofs.
 
 Theorem C16_hevc_ParseSPSNALUnit_total : forall nalu : list N,
   c16_hparse_sps nalu = Err \/ exists s, c16_hparse_sps nalu = Ok s /\ hsps_wfb s = true.
@@ -47,6 +47,20 @@ Theorem C16_hevc_ParsePSAndSlice_total : forall (cs : list hsps) (cp : list hpps
   exists h, hevc_ps_and_slice cs cp a b rest = Ok h.
 Proof. exact hevc_ps_and_slice_total. Qed.
 Print Assumptions C16_hevc_ParsePSAndSlice_total.
+
+(* hostile SPS -> SEI NAL unit decoded with the HEVCPicTimingParams derived from that SPS (VUI / HRD lengths) *)
+Theorem C16_hevc_ParseSPSAndSEI_total : forall a rest : list N,
+  hevc_sps_and_sei a rest = Err \/
+  exists n miss, hevc_sps_and_sei a rest = Ok (n, miss) /\ 2 * n <= lenN rest.
+Proof. exact hevc_sps_and_sei_total. Qed.
+Print Assumptions C16_hevc_ParseSPSAndSEI_total.
+
+(* decoder configuration record -> its SPS and PPS NAL units -> slice segment header *)
+Theorem C16_hevc_DecConfRecAndSlice_total : forall recb rest : list N,
+  hevc_confrec_and_slice recb rest = Err \/ hevc_confrec_and_slice recb rest = OutOfFuel \/
+  exists h, hevc_confrec_and_slice recb rest = Ok h.
+Proof. exact hevc_confrec_and_slice_total. Qed.
+Print Assumptions C16_hevc_DecConfRecAndSlice_total.
 
 (* the wrappers compute what the C15 models compute wherever those are defined *)
 Theorem C16_hevc_ParseSPSNALUnit_agrees_with_C15_model : forall nalu : list N,
